@@ -241,6 +241,8 @@ func runC14(r *Run) {
 		}
 		srv := clgrpc.UnaryServerInterceptor(opts...)
 		cli := clgrpc.UnaryClientInterceptor(opts...)
+		// every method is limited alike, whatever its name (also the well-known services an instance exposes)
+		method := []string{"/svc/m", "/svc/m", "/grpc.health.v1.Health/Check", "/grpc.reflection.v1.ServerReflection/ServerReflectionInfo", "/svc.Admin/Shutdown"}[t.Intn(5, "method-name")]
 		for i := 0; i < nOps; i++ {
 			mark := len(log.ev)
 			wantResp := &struct{ i int }{i}
@@ -254,13 +256,13 @@ func runC14(r *Run) {
 				r.Fault("F-cancel")
 			}
 			if kind == 0 {
-				gotResp, gotErr = srv(callCtx, i, &golangGrpc.UnaryServerInfo{FullMethod: "/svc/m"}, func(ctx context.Context, req interface{}) (interface{}, error) {
+				gotResp, gotErr = srv(callCtx, i, &golangGrpc.UnaryServerInfo{FullMethod: method}, func(ctx context.Context, req interface{}) (interface{}, error) {
 					handlerCalls++
 					log.add("call:handler:%d", i)
 					return wantResp, wantErr
 				})
 			} else {
-				gotErr = cli(callCtx, "/svc/m", i, nil, nil, func(ctx context.Context, method string, req, reply interface{}, cc *golangGrpc.ClientConn, opts ...golangGrpc.CallOption) error {
+				gotErr = cli(callCtx, method, i, nil, nil, func(ctx context.Context, _ string, req, reply interface{}, cc *golangGrpc.ClientConn, opts ...golangGrpc.CallOption) error {
 					handlerCalls++
 					log.add("call:handler:%d", i)
 					return wantErr
@@ -365,7 +367,8 @@ func runC14(r *Run) {
 		fs := &fakeStream{log: log, ctx: sctx, recvErr: func(i int) error { return errs[i] }, sendErr: func(i int) error { return errs[32+i] }}
 		var wrapped golangGrpc.ServerStream
 		herr := errors.New("handler result")
-		got := ic(nil, fs, &golangGrpc.StreamServerInfo{FullMethod: "/svc/stream"}, func(srv interface{}, ss golangGrpc.ServerStream) error {
+		streamMethod := []string{"/svc/stream", "/svc/stream", "/grpc.health.v1.Health/Watch", "/grpc.reflection.v1.ServerReflection/ServerReflectionInfo"}[t.Intn(4, "stream-method-name")]
+		got := ic(nil, fs, &golangGrpc.StreamServerInfo{FullMethod: streamMethod}, func(srv interface{}, ss golangGrpc.ServerStream) error {
 			wrapped = ss
 			return herr
 		})
